@@ -188,6 +188,7 @@ func C09(c *Ctx) {
 	rng := rand.New(rand.NewSource(c.Seed*389 + 9))
 	n := c.N(150, 2500)
 	gs := c09Strata()
+	nStrata := len(gs)
 	p := optProfile()
 	tp := throwProfile()
 	tp.MaxDepth, tp.MinRules, tp.MaxRules = 3, 3, 8
@@ -215,6 +216,10 @@ func C09(c *Ctx) {
 			if len(entries[gi]) > 0 {
 				v = append(v, "-alternate-entrypoints", strings.Join(entries[gi], ","))
 			}
+			if gi < nStrata && len(v) > 1 {
+				// the fixed shapes also run without any protected entrypoint (a protected rule is never removed)
+				return [][]string{{}, v, {"-optimize-grammar"}}
+			}
 			return [][]string{{}, v}
 		},
 		Cases: func(gi int, g *gast.Grammar) []*mon.Case {
@@ -230,10 +235,15 @@ func C09(c *Ctx) {
 			}
 			return cs
 		},
-		Compare:    c09Compare,
-		NonTrivial: func(r *mon.Result, cs *mon.Case) bool { return r.ErrNil && (len(r.Trace) > 0 || strings.Contains(r.Val, ",")) },
-		Chunk:      50,
-		Sig:        c09Sig,
+		CaseOK: func(variant []string, cs *mon.Case) bool {
+			return cs.Entry == "" || len(variant) == 0 || hasFlag(variant, "-alternate-entrypoints")
+		},
+		Compare: c09Compare,
+		NonTrivial: func(r *mon.Result, cs *mon.Case) bool {
+			return r.ErrNil && (len(r.Trace) > 0 || strings.Contains(r.Val, ","))
+		},
+		Chunk: 50,
+		Sig:   c09Sig,
 	}
 	c.runKnownC09()
 	c.DiffCheck(cfg)
@@ -275,6 +285,15 @@ func c09Strata() []*gast.Grammar {
 		mk(r("S", gast.C(gast.Ref("R1"), gast.Ref("R2"))), r("R1", gast.S(gast.Ref("L"), gast.L("b"))), r("R2", gast.S(gast.Ref("L"), gast.L("c"))), r("L", gast.L("a"))),
 		// inverted classes side by side
 		mk(r("S", gast.S(gast.C(inv("ab"), inv("cd")), gast.NotE(gast.Dot())))),
+		// a one-rune literal next to an inverted class that excludes it through a range / a Unicode
+		// class / a listed char / case folding
+		mk(r("S", gast.Star(gast.C(gast.L("x"), gast.Cl(&gast.ClassSpec{Ranges: [][2]rune{{'a', 'z'}}, Inverted: true}))))),
+		mk(r("S", gast.Star(gast.C(gast.L("k"), gast.Cl(&gast.ClassSpec{UClasses: []string{"Ll"}, Inverted: true}), gast.L("é"))))),
+		mk(r("S", gast.Star(gast.C(gast.Li("X"), gast.Cl(&gast.ClassSpec{Chars: []rune("x"), Ranges: [][2]rune{{'a', 'w'}}, Inverted: true, IgnoreCase: true}))))),
+		mk(r("S", gast.Star(gast.C(gast.Cl(&gast.ClassSpec{Ranges: [][2]rune{{'0', '9'}}, Inverted: true}), gast.L("5"), inv("xyz"), gast.L("y"))))),
+		// one host references a label-binding leaf rule both labelled and bare
+		mk(r("S", gast.S(gast.Ref("Pair"), gast.Star(gast.S(gast.L(";"), gast.Ref("Pair"))), gast.NotE(gast.Dot()))),
+			r("Pair", act(gast.S(gast.Lab("k", gast.Ref("Word")), gast.L("="), gast.Ref("Word")), 1)), r("Word", act(gast.Lab("w", gast.Plus(gast.Cl(gast.Chars("ab")))), 2))),
 		// mixed i / non-i literals and classes in one choice
 		mk(r("S", gast.Plus(gast.C(gast.L("a"), gast.Li("b"), gast.Cl(gast.Chars("c")), gast.Cl(&gast.ClassSpec{Chars: []rune("d"), IgnoreCase: true}), inv("abcdABCD"))))),
 		// leaf rule with labels and an action, used twice in one host
